@@ -13,6 +13,7 @@ import (
 	"fmt"
 	"net/url"
 	"sort"
+	"unicode/utf8"
 
 	"github.com/shogo82148/goat/internal/jsonutils"
 	"github.com/shogo82148/goat/jwa"
@@ -436,6 +437,11 @@ func (msg *Message) UnmarshalJSON(data []byte) error {
 }
 
 func (msg *Message) MarshalJSON() ([]byte, error) {
+	if msg.nb64 && !utf8.Valid(msg.payload) {
+		// RFC 7797 Section 5.2: the unencoded payload is a JSON string value.
+		// encoding/json would replace the invalid bytes with U+FFFD.
+		return nil, errors.New("jws: unencoded payload must be valid UTF-8 in JSON serialization")
+	}
 	raw := map[string]any{
 		"payload": string(msg.payload),
 	}
